@@ -22,16 +22,16 @@ func init() {
 
 	register(&core.Rule{ID: "C20.1", Prop: "C20", MinSites: 1,
 		Desc: "smear cascade completeness: in a chain `n |= n >> k` on one variable the shift amounts cover every power of two below the variable's bit width on the analysed target",
-		Run: runC20_1})
+		Run:  runC20_1})
 	register(&core.Rule{ID: "C20.2", Prop: "C20", MinSites: 4,
 		Desc: "CeilToPowerOfTwo: guard constant = 2^(W-2), W = 8·sizeof(int); guard and the n<=2 return dominate the shift; the result is 1 << bits.Len(uint(n-1)); IsPowerOfTwo is n>0 && n&(n-1)==0",
-		Run: runC20_2})
+		Run:  runC20_2})
 	register(&core.Rule{ID: "C20.3", Prop: "C20", MinSites: 10,
 		Desc: "GFD layout table: writers (NewGFD, UpdateIndexes) and readers agree on byte range, width and byte order per field; ranges are disjoint and inside the array; *Max constants equal 2^(8·width)",
-		Run: runC20_3})
+		Run:  runC20_3})
 	register(&core.Rule{ID: "C20.4", Prop: "C20", MinSites: 3,
 		Desc: "size-class index: byteslice.index(n) is bits.Len32(n-1); Get guards size into [1, MaxInt32] before indexing an array of 32 pools; the ring-buffer pool index is clamped to steps-1",
-		Run: runC20_4})
+		Run:  runC20_4})
 }
 
 func intWidth(c *core.Ctx, pk *types.Package, t types.Type) int64 {
